@@ -23,7 +23,9 @@
    Harness limitation (both sides): with the path scheme or a snapshot tree (cfg bits 0, 1) a chain
    whose new root equals an EARLIER root of the same chain other than its parent cannot be added to
    the layer tree (layers are keyed by root; real chains never revisit a root because nonces grow);
-   such a commitobs is ( x<root1> pdump 3 ), nothing is committed, and if it was the main state the run stops. *)
+   such a commitobs is ( x<root1> pdump 3 ), nothing is committed, and if it was the main state the run stops.
+   When the root was committed by a sibling branch IN THIS BLOCK (same parent, same state) nothing needs to be
+   added: the commitobs is ( x<root1> pdump 4 pdump' ) with pdump' from state.New(root1), and the run goes on. *)
 From stdpp Require Import gmap.
 From GV Require Import Lib.Sx Keccak.Sponge Trie.Node State.Ref State.Journal State.Commit Run.C13.
 Local Open Scope N_scope.
@@ -55,12 +57,19 @@ Fixpoint run_ops_c (cs : cstate) (ops : list op) : cstate * list sx :=
 
 (* IntermediateRoot; Commit; state.New(root): observations, the database afterwards, the roots
    seen, and the reopened state when everything succeeded *)
-Definition commit_obs (layered : bool) (seen : list (list N)) (r : rules) (p : pdb) (cs : cstate)
+Definition commit_obs (layered : bool) (base : nat) (seen : list (list N)) (r : rules) (p : pdb) (cs : cstate)
   : list sx * pdb * list (list N) * option cstate :=
   match intermediate_root K r p cs with
   | CErr e => ([serr e], p, seen, None)
   | COk (root1, cs1) =>
-      if layered && negb (bool_decide (root1 = c_root cs1)) && bool_decide (root1 ∈ seen)
+      if layered && negb (bool_decide (root1 = c_root cs1)) && bool_decide (root1 ∈ take (length seen - base) seen)
+      then (* a sibling branch of this block already committed this very root: nothing to add to the
+              layer tree; reopen there *)
+        match open K addrs4 slots4 p root1 with
+        | CErr e => ([SB root1; pdump cs1; SI 4; serr e], p, seen, None)
+        | COk cs' => ([SB root1; pdump cs1; SI 4; pdump cs'], p, seen, Some cs')
+        end
+      else if layered && negb (bool_decide (root1 = c_root cs1)) && bool_decide (root1 ∈ seen)
       then ([SB root1; pdump cs1; SI 3], p, seen, None)
       else
       match commit K r p cs1 with
@@ -76,7 +85,7 @@ Definition commit_obs (layered : bool) (seen : list (list N)) (r : rules) (p : p
 Record rs := { r_p : pdb; r_seen : list (list N); r_main : cstate; r_sides : list (cstate * N) }.
 
 (* a copy item: the branch to copy, the ops of the side branch, its mode *)
-Definition do_copy (layered : bool) (r : rules) (st : rs) (from_side : option nat) (sw : bool)
+Definition do_copy (layered : bool) (base : nat) (r : rules) (st : rs) (from_side : option nat) (sw : bool)
            (ops : list op) (mode : N) : option (rs * list sx) :=
   let src := match from_side with
              | None => Some (r_main st)
@@ -95,7 +104,7 @@ Definition do_copy (layered : bool) (r : rules) (st : rs) (from_side : option na
                  end in
       let o1 := SL [SL outs; fdump side'; fdump keep] in
       if mode =? 3 then
-        let '(co, p', seen', _) := commit_obs layered (r_seen st1) r (r_p st1) side' in
+        let '(co, p', seen', _) := commit_obs layered base (r_seen st1) r (r_p st1) side' in
         Some ({| r_p := p'; r_seen := seen'; r_main := r_main st1; r_sides := r_sides st1 |}, [o1; SL co])
       else
         Some ({| r_p := r_p st1; r_seen := r_seen st1; r_main := r_main st1;
@@ -103,7 +112,7 @@ Definition do_copy (layered : bool) (r : rules) (st : rs) (from_side : option na
   end.
 
 (* the items of one block: Some (state, observations, stopped) *)
-Fixpoint run_items (layered : bool) (r : rules) (st : rs) (items : list sx) : option (rs * list sx * bool) :=
+Fixpoint run_items (layered : bool) (base : nat) (r : rules) (st : rs) (items : list sx) : option (rs * list sx * bool) :=
   match items with
   | [] => Some (st, [], false)
   | SL [SI 0%Z; o] :: rest =>
@@ -111,7 +120,7 @@ Fixpoint run_items (layered : bool) (r : rules) (st : rs) (items : list sx) : op
       | None => None
       | Some o =>
           let '(cs', w) := step_c K (r_main st) o in
-          match run_items layered r {| r_p := r_p st; r_seen := r_seen st; r_main := cs'; r_sides := r_sides st |} rest with
+          match run_items layered base r {| r_p := r_p st; r_seen := r_seen st; r_main := cs'; r_sides := r_sides st |} rest with
           | Some (st', l, b) => Some (st', (if j_bad (c_j cs') then SErr 99 else enc_out w) :: l, b)
           | None => None
           end
@@ -120,7 +129,7 @@ Fixpoint run_items (layered : bool) (r : rules) (st : rs) (items : list sx) : op
       match intermediate_root K r (r_p st) (r_main st) with
       | CErr e => Some (st, [serr e], true)
       | COk (root, cs') =>
-          match run_items layered r {| r_p := r_p st; r_seen := r_seen st; r_main := cs'; r_sides := r_sides st |} rest with
+          match run_items layered base r {| r_p := r_p st; r_seen := r_seen st; r_main := cs'; r_sides := r_sides st |} rest with
           | Some (st', l, b) => Some (st', SL [SB root; pdump cs'] :: l, b)
           | None => None
           end
@@ -128,9 +137,9 @@ Fixpoint run_items (layered : bool) (r : rules) (st : rs) (items : list sx) : op
   | SL [SI 2%Z; sw; SL ops; md] :: rest =>
       match sx_bool sw, opt_map dec_op ops, sx_N md with
       | Some sw, Some ops, Some md =>
-          match do_copy layered r st None sw ops md with
+          match do_copy layered base r st None sw ops md with
           | Some (st1, o1) =>
-              match run_items layered r st1 rest with
+              match run_items layered base r st1 rest with
               | Some (st', l, b) => Some (st', o1 ++ l, b)
               | None => None
               end
@@ -141,9 +150,9 @@ Fixpoint run_items (layered : bool) (r : rules) (st : rs) (items : list sx) : op
   | SL [SI 3%Z; i; SL ops; md] :: rest =>
       match sx_nat i, opt_map dec_op ops, sx_N md with
       | Some i, Some ops, Some md =>
-          match do_copy layered r st (Some i) false ops md with
+          match do_copy layered base r st (Some i) false ops md with
           | Some (st1, o1) =>
-              match run_items layered r st1 rest with
+              match run_items layered base r st1 rest with
               | Some (st', l, b) => Some (st', o1 ++ l, b)
               | None => None
               end
@@ -155,24 +164,24 @@ Fixpoint run_items (layered : bool) (r : rules) (st : rs) (items : list sx) : op
   end.
 
 (* side branches at block end; [phase] false = before the main state (modes 0 and 1), true = after (mode 2) *)
-Fixpoint end_sides (layered : bool) (phase : bool) (r : rules) (p : pdb) (seen : list (list N))
+Fixpoint end_sides (layered : bool) (base : nat) (phase : bool) (r : rules) (p : pdb) (seen : list (list N))
          (sides : list (cstate * N)) : list sx * pdb * list (list N) :=
   match sides with
   | [] => ([], p, seen)
   | (c, md) :: rest =>
       if phase then
         if md =? 2 then
-          let '(co, p', seen', _) := commit_obs layered seen r p c in
-          let '(l, p'', seen'') := end_sides layered phase r p' seen' rest in (SL co :: l, p'', seen'')
-        else end_sides layered phase r p seen rest
+          let '(co, p', seen', _) := commit_obs layered base seen r p c in
+          let '(l, p'', seen'') := end_sides layered base phase r p' seen' rest in (SL co :: l, p'', seen'')
+        else end_sides layered base phase r p seen rest
       else
         if md =? 0 then
           let o := match intermediate_root K r p c with COk (root, _) => SB root | CErr e => serr e end in
-          let '(l, p'', seen'') := end_sides layered phase r p seen rest in (o :: l, p'', seen'')
+          let '(l, p'', seen'') := end_sides layered base phase r p seen rest in (o :: l, p'', seen'')
         else if md =? 1 then
-          let '(co, p', seen', _) := commit_obs layered seen r p c in
-          let '(l, p'', seen'') := end_sides layered phase r p' seen' rest in (SL co :: l, p'', seen'')
-        else end_sides layered phase r p seen rest
+          let '(co, p', seen', _) := commit_obs layered base seen r p c in
+          let '(l, p'', seen'') := end_sides layered base phase r p' seen' rest in (SL co :: l, p'', seen'')
+        else end_sides layered base phase r p seen rest
   end.
 
 Fixpoint run_blocks (layered : bool) (seen : list (list N)) (p : pdb) (cs : cstate) (blocks : list sx) : list sx :=
@@ -183,16 +192,17 @@ Fixpoint run_blocks (layered : bool) (seen : list (list N)) (p : pdb) (cs : csta
       | None => [SErr 1]
       | Some rn =>
           let r := dec_rules rn in
-          match run_items layered r {| r_p := p; r_seen := seen; r_main := cs; r_sides := [] |} items with
+          let base := length seen in
+          match run_items layered base r {| r_p := p; r_seen := seen; r_main := cs; r_sides := [] |} items with
           | None => [SErr 2]
           | Some (st, l, true) => [SL l]
           | Some (st, l, false) =>
-              let '(s1, p1, seen1) := end_sides layered false r (r_p st) (r_seen st) (r_sides st) in
-              let '(mo, p2, seen2, nxt) := commit_obs layered seen1 r p1 (r_main st) in
+              let '(s1, p1, seen1) := end_sides layered base false r (r_p st) (r_seen st) (r_sides st) in
+              let '(mo, p2, seen2, nxt) := commit_obs layered base seen1 r p1 (r_main st) in
               match nxt with
               | None => [SL (l ++ s1 ++ mo)]
               | Some cs' =>
-                  let '(s2, p3, seen3) := end_sides layered true r p2 seen2 (r_sides st) in
+                  let '(s2, p3, seen3) := end_sides layered base true r p2 seen2 (r_sides st) in
                   SL (l ++ s1 ++ mo ++ s2) :: run_blocks layered seen3 p3 cs' rest
               end
           end
